@@ -9,12 +9,13 @@ from mc.props import kcommon
 
 # delete(never-existed id) is explored in the small 'deletes' configuration only: it counts as a
 # statement without being a write, which squares the (counter, pending) part of the state space
-ALPHA_SQLITE = ("ins1", "bulk2", "bulk49", "bulk50", "bulk51", "mix", "ups", "rep", "repl", "del", "get", "get_id", "count", "mkB2", "insB2", "updB2", "delB2", "updB1", "clock+11", "delB2x", "updB2x", "staleB2bulk", "badbulk")
+ALPHA_SQLITE = ("ins1", "bulk2", "bulk49", "bulk50", "bulk51", "mix", "ups", "rep", "repl", "del", "get", "get_id", "count", "mkB2", "insB2", "updB2", "delB2", "updB1", "clock+11", "delB2x", "updB2x", "staleB2bulk", "badbulk", "bulk49B2")
 ALPHA_PEEWEE = ("ins1", "bulk2", "bulk51", "mix", "ups", "ups2", "rep", "repl", "del", "delx", "get", "mkB2", "insB2", "updB2", "delB2", "updB1", "delB2x", "updB2x", "staleB2bulk", "badbulk")
 # equivalent-class duplicates left to the thorough tier (a second read flavour, a second bucket-update target)
 QUICK_DROPS = ("get_id", "count", "updB2", "bulk49")
 BOUNDS = {
     "fault_ops": "delete/update of an absent bucket and a bulk insert through a stale handle of a deleted bucket must raise, change nothing, and leave later operations as durable as before",
+    "big_buckets": "delete_bucket / update_bucket of a second bucket holding 999, 1000, 1001, 2300 events (sqlite) and 1001 events (peewee), crash image at every statement",
     "migrated_start": "sqlite stores opened (default path) beside a legacy database holding 1/30/49/50/51 events, followed by up to 56 single inserts / one 49-bulk / 28 2-bulks / 56 deletes with a crash image at every return",
     "quick": {"sqlite": [o for o in ALPHA_SQLITE if o not in QUICK_DROPS], "peewee": list(ALPHA_PEEWEE), "initial_state": "bucket B1 with 2 single-inserted events, flushed", "deletes": "a second sqlite configuration starts from 70 single-inserted events and explores delete/insert/read only, so that > 64 buffered deletions are reachable"},
     "thorough": {"as": "quick", "plus": "clock +1/+9 in the sqlite alphabet, peewee with bulk 49/50 and 101/201-row bulk inserts"},
@@ -36,6 +37,14 @@ def configs(ctx):
     c = [
         {"name": "sqlite/main", "backend": "sqlite", "alphabet": (ALPHA_SQLITE + ("clock+1", "clock+9")) if ctx.thorough else tuple(o for o in ALPHA_SQLITE if o not in QUICK_DROPS), "cap_s": 900 if ctx.thorough else 240},
         {"name": "sqlite/deletes", "backend": "sqlite", "alphabet": ("del", "ins1", "get", "delx"), "seed_events": 70, "max_states": 6000},
+        # bucket-level operations on BIG buckets: delete_bucket / update_bucket of a bucket holding
+        # 999 / 1000 / 1001 / 2300 events, crash image at every statement (seeded: events deleted in
+        # batches of 1000 with a commit after each full batch)
+        {"name": "sqlite/bigbucket-999", "backend": "sqlite", "alphabet": ("delB2", "updB2"), "seed_B2": 999, "max_depth": 1, "depth_is_the_bound": True},
+        {"name": "sqlite/bigbucket-1000", "backend": "sqlite", "alphabet": ("delB2", "updB2"), "seed_B2": 1000, "max_depth": 1, "depth_is_the_bound": True},
+        {"name": "sqlite/bigbucket-1001", "backend": "sqlite", "alphabet": ("delB2", "updB2"), "seed_B2": 1001, "max_depth": 1, "depth_is_the_bound": True},
+        {"name": "sqlite/bigbucket-2300", "backend": "sqlite", "alphabet": ("delB2", "updB2"), "seed_B2": 2300, "max_depth": 1, "depth_is_the_bound": True},
+        {"name": "peewee/bigbucket-1001", "backend": "peewee", "alphabet": ("delB2", "updB2"), "seed_B2": 1001, "max_depth": 1, "depth_is_the_bound": True},
         {"name": "peewee", "backend": "peewee", "alphabet": ALPHA_PEEWEE + (("bulk49", "bulk50") if ctx.thorough else ())},
     ]
     return c
